@@ -220,7 +220,13 @@ pub fn build_circuit(
     if bulk_pos == Some(gates.len()) {
         push_bulk(bulk.unwrap(), max_reg_count, &mut set, &mut is_set, &mut insts, &mut ands);
     }
-    let output_regs: Vec<u32> = if outputs.is_empty() { vec![*set.last().unwrap()] } else { outputs.iter().map(|o| set[idx(*o, set.len())]).collect() };
+    let mut output_regs: Vec<u32> = if outputs.is_empty() { vec![*set.last().unwrap()] } else { outputs.iter().map(|o| set[idx(*o, set.len())]).collect() };
+    if outputs.len() >= 96 {
+        // dense output class: every live register is an output (many unique output wires)
+        let mut all = set.clone();
+        all.extend(output_regs.iter().take(8));
+        output_regs = all;
+    }
     CircSpec { input_regs: input_counts.to_vec(), insts, max_reg_count, output_regs, and_ops: ands }
 }
 
@@ -271,11 +277,26 @@ pub struct CircParams {
     pub bulk_prob: u8,
     pub and_weight: u8,
     pub max_outputs: usize,
+    /// upper bound of unused / fresh registers beyond the inputs
+    pub max_extra_regs: usize,
+    /// candidate register counts for "many registers" circuits (messages crossing 64 KiB); empty = never
+    pub huge_regs: Vec<usize>,
 }
 
 impl Default for CircParams {
     fn default() -> Self {
-        CircParams { n_min: 2, n_max: 5, max_inputs_per_party: 4, max_gates: 40, bulk: vec![], bulk_prob: 0, and_weight: 96, max_outputs: 6 }
+        CircParams { n_min: 2, n_max: 5, max_inputs_per_party: 4, max_gates: 40, bulk: vec![], bulk_prob: 0, and_weight: 96, max_outputs: 6, max_extra_regs: 6, huge_regs: vec![] }
+    }
+}
+
+impl CircParams {
+    /// many inputs, many fresh registers, many (unique) outputs
+    pub fn wide(n_min: usize, n_max: usize) -> Self {
+        CircParams { n_min, n_max, max_inputs_per_party: 30, max_gates: 160, and_weight: 40, max_outputs: 160, max_extra_regs: 200, ..Default::default() }
+    }
+    /// few gates, tens of thousands of registers: every Vec<Option<..>> message exceeds 64 KiB
+    pub fn huge_regs(n_min: usize, n_max: usize) -> Self {
+        CircParams { n_min, n_max, max_gates: 12, huge_regs: vec![65_600, 70_000, 131_100], ..Default::default() }
     }
 }
 
@@ -297,7 +318,7 @@ pub fn gen_circuit(p: CircParams) -> impl Strategy<Value = CircSpec> {
             let p = p2.clone();
             (
                 input_counts(n, p.max_inputs_per_party),
-                0usize..=6,
+                0usize..=p.max_extra_regs,
                 // size classes: 0 gates .. max_gates
                 prop_oneof![
                     1 => proptest::collection::vec(gate_desc(), 0..=3),
@@ -315,6 +336,7 @@ pub fn gen_circuit(p: CircParams) -> impl Strategy<Value = CircSpec> {
                     };
                     // bulk circuits need scratch registers
                     let extra = if bulk.is_some() { extra + 3 } else { extra };
+                    let extra = if !p.huge_regs.is_empty() { p.huge_regs[idx(bsel, p.huge_regs.len())] } else { extra };
                     build_circuit(&counts, extra.max(1), &gates, bulk, &outs, aw)
                 })
         })
